@@ -16,7 +16,7 @@ def _limitsort(ctx):
     return (nexts[0] if len(nexts) == 1 else None), ctors
 
 
-def bounded_selection(ctx, rule):
+def bounded_selection(ctx, rule, check_limit_arg=True):
     nb, ctors = _limitsort(ctx)
     if not ctx.require(rule, "LimitSortIter::next", nb):
         return
@@ -82,7 +82,7 @@ def bounded_selection(ctx, rule):
     # (i) every truncate: argument is the limit field and a sort dominates it with no push in between
     for (tb, tt, ta) in truncs:
         key = "truncate@%s" % ("drain" if cfg.in_loop(tb) else "final")
-        lim_ok = is_field(ta[1], f_limit)
+        lim_ok = is_field(ta[1], f_limit) or not check_limit_arg
         sdom = [s_ for s_ in sorts if cfg.dominates(s_, tb) and cfg.every_path_passes(s_, [tb])
                 and not any(_between(cfg, s_, p, tb) for p in pushes)]
         if lim_ok and sdom:
@@ -221,7 +221,12 @@ def position_mapping(ctx, rule):
     if not ctx.require(rule, "Store::search", sb):
         return None
     sy = ctx.sym(sb)
-    src, stages = U.chain(sy.local(0))
+    cands = [U.chain(a) for a in U.flatten_phi(sy.local(0))]
+    cands = [c for c in cands if len(c[1]) >= 3]
+    if len(cands) != 1:
+        ctx.fail(rule, "ixs-sources", sb.where(), "search pipeline not recognised (%d pipelines; fail closed)" % len(cands))
+        return None
+    src, stages = cands[0]
     names = [s[0] for s in stages]
     ctx.count("search_chain_stages", len(stages))
     key = "ixs-sources"
@@ -291,7 +296,22 @@ def search_chain_shape(ctx, rule, parts=("order", "score", "filter", "comparator
     if sb is None:
         return
     sy = ctx.sym(sb)
-    src, stages = U.chain(sy.local(0))
+    alts = U.flatten_phi(sy.local(0))
+    chains = [U.chain(a) for a in alts]
+    main = [c for c in chains if len(c[1]) >= 3]
+    side = [a for a, c in zip(alts, chains) if len(c[1]) < 3]
+    empty_side = [a for a in side if S.strip_refs(a)[0] == "call" and S.strip_refs(a)[1].endswith(("Vec::new", "Vec::with_capacity"))]
+    other_side = [a for a in side if a not in empty_side]
+    if (other_side and "order" in parts) or (side and "complete" in parts):
+        side = other_side or side
+        ctx.fail(rule, "early-return", sb.where(), "Store::search has a return path that bypasses the candidate -> score -> filter -> "
+                 "selection pipeline (%s): hits can be lost or reported without being scored" % S.show(side[0], sb)[:80],
+                 {"witness": "a query sequence that arms the shortcut returns [] (or unscored records) where a fresh store returns hits"})
+    if len(main) != 1:
+        if "order" in parts or "complete" in parts or not main:
+            ctx.fail(rule, "chain", sb.where(), "search pipeline changed shape: %d pipelines found (fail closed)" % len(main))
+        return
+    src, stages = main[0]
     names = [s[0] for s in stages]
     key = "chain"
     want = ["iter", "map", "map", "filter", "limit_sort_unstable", "map", "collect"]
